@@ -211,6 +211,7 @@ class Evaluator(object):
         c = Evaluator(self.fns, inline_depth=0)
         c.consts = getattr(self, 'consts', {})
         c.new_const = getattr(self, 'new_const', None)
+        c.error_has_source = getattr(self, 'error_has_source', lambda v: False)
         c.tyenv = dict(self.tyenv)
         return c
 
@@ -508,7 +509,7 @@ class Evaluator(object):
         if len(b['stmts']) > (0 if b.get('expr') is not None else 1):
             return False
         t = show(sub.eval(last['e'], dict(env), [], None, []))
-        return t.startswith('Err(') or bool(re.match(r'^errors::\w+Snafu::fail\(', t))
+        return t.startswith('Err(')
 
     def block_diverges(self, b):
         """The expression never completes normally (structurally: return / break / continue / a
@@ -814,6 +815,9 @@ class Evaluator(object):
             red = self.reduce_result_match(node, sc, arm_info, guards, fn, chain)
             if red is not None:
                 return red
+            red = self.reduce_option_match(node, sc, arm_info, guards, fn, chain)
+            if red is not None:
+                return red
             if len(arm_info) == 2 and all(a.get('guard') is None for a in node['arms']) and arm_info[0][2][0] != 'ctl' and arm_info[1][2][0] != 'ctl' \
                     and not self.block_diverges(node['arms'][0]['body']) and not self.block_diverges(node['arms'][1]['body']):
                 p0, p1 = node['arms'][0]['pat'], node['arms'][1]['pat']
@@ -834,6 +838,41 @@ class Evaluator(object):
             return ('call', 'repeat', (self.eval(node['e'], env, guards, fn, chain),), ())
         return ('ctl', '<%s>' % k)
 
+    def reduce_option_match(self, node, sc, arm_info, guards, fn, chain):
+        """`match opt { Some(v) => Ok(v), None => Err(e) }` is `opt.ok_or(e)`; with `Some(v) => v, None => return Err(e)` it is
+        `opt.ok_or(e)?`."""
+        if not (node['scrut'].get('ty') or '').lstrip('&').startswith('std::option::Option<') or len(arm_info) != 2:
+            return None
+        some = [x for x in arm_info if x[1] == {'Some'}]
+        none = [x for x in arm_info if x[1] == {'None'}]
+        if len(some) != 1 or len(none) != 1:
+            return None
+        (sa, _, sbt, s0, s1), (na, _, nbt, n0, n1) = some[0], none[0]
+        payload = ('field', sc, 'Some.0')
+        nevs = self.events[n0:n1]
+        if self.block_diverges(na['body']):
+            rets = [x for x in nevs if x.kind == 'ret']
+            if len(rets) != 1 or rets[0].term is None or rets[0].term[0] != 'call' or rets[0].term[1] != 'Err':
+                return None
+            if not error_building_only(nevs, rets[0].term):
+                return None
+            if self.block_diverges(sa['body']) or sbt[0] == 'ctl':
+                return None
+            e = rets[0].term[2][0]
+            del self.events[n0:n1]
+            for i, x in enumerate(self.events):
+                x.idx = i
+            t = ('try', ('call', 'std::option::Option::ok_or', (sc, e), ()))
+            self.emit('try', t, node, guards, fn, chain)
+            return replace(sbt, payload, t)
+        if nbt is None or nbt[0] != 'call' or nbt[1] != 'Err' or len(nbt[2]) != 1:
+            return None
+        if not error_building_only([x for x in nevs if x.kind != 'ret'], nbt) or [x for x in nevs if x.kind == 'ret']:
+            return None
+        if sbt == ('call', 'Ok', (payload,), ()):
+            return ('call', 'std::option::Option::ok_or', (sc, nbt[2][0]), ())
+        return None
+
     def reduce_result_match(self, node, sc, arm_info, guards, fn, chain):
         """`match r { Ok(v) => .., Err(e) => <hand e on> }` is the explicit spelling of `r?` / `r.map(..)` /
         `r.map_err(..)?`: give it the same term and events as the operator form."""
@@ -853,19 +892,12 @@ class Evaluator(object):
             if len(rets) != 1:
                 return None
             returned = rets[0].term
-            sub_shown = set(show(t) for t in subterms(returned)) if returned is not None else set()
-            others = [x for x in err_events if x.kind not in ('ret', 'ctor', 'struct') and not (x.kind == 'call' and x.callee in ('Err',))
-                      and not (x.kind == 'call' and show(x.term) in sub_shown)]
-            if others:
+            if not error_building_only(err_events, returned):
                 return None
             diverging = True
         else:
             returned = ebt
-            inside = set(id(t) for t in subterms(returned)) if returned is not None else set()
-            sub_shown = set(show(t) for t in subterms(returned)) if returned is not None else set()
-            others = [x for x in err_events if x.kind not in ('ctor', 'struct') and not (x.kind == 'call' and x.callee in ('Err',))
-                      and not (x.kind == 'call' and show(x.term) in sub_shown)]
-            if others:
+            if not error_building_only(err_events, returned) or [x for x in err_events if x.kind == 'ret']:
                 return None
             diverging = False
         if returned is None or returned[0] != 'call' or returned[1] != 'Err' or len(returned[2]) != 1:
@@ -987,6 +1019,9 @@ class Evaluator(object):
             self.emit('ctor', t, node, guards, fn, chain, callee=npath, args=args)
             return t
         t = ('call', npath, args, gargs)
+        ce = canon_error_call(npath, args, getattr(self, 'error_has_source', lambda v: False))
+        if ce is not None:
+            t = ce
         ev = self.emit('call', t, node, guards, fn, chain, callee=npath, args=args, extra={'decl': ndecl, 'gargs': gargs})
         # bounded inlining of crate-local callees
         target = self.fns.get(npath)
@@ -1130,6 +1165,72 @@ def widening(src, dst):
 def closure_node(n):
     n = H.peel(n) if isinstance(n, dict) else n
     return n if isinstance(n, dict) and n.get('k') == 'Closure' else None
+
+
+_SEL = re.compile(r'^errors::(\w+)Snafu$')
+
+
+def snafu_error(sel):
+    """the error value a snafu context selector stands for: errors::XSnafu{f..} -> errors::Error::X{f..}"""
+    if sel is None:
+        return None
+    if sel[0] == 'path':
+        m = _SEL.match(sel[1])
+        return ('path', 'errors::Error::' + m.group(1)) if m else None
+    if sel[0] == 'struct' and sel[3] is None:
+        m = _SEL.match(sel[1])
+        if not m:
+            return None
+        if not sel[2]:
+            return ('path', 'errors::Error::' + m.group(1))
+        return ('struct', 'errors::Error::' + m.group(1), sel[2], None)
+    return None
+
+
+def with_source(err, src):
+    if err[0] == 'path':
+        return ('struct', err[1], (('source', src),), None)
+    return ('struct', err[1], tuple(sorted(err[2] + (('source', src),))), None)
+
+
+def canon_error_call(npath, args, has_source):
+    """snafu spellings and their hand-written equivalents in one form: `XSnafu{..}.fail()` is `Err(Error::X{..})`,
+    `.build()` is `Error::X{..}`, `opt.context(sel)` / `ok_or_else(|| e)` is `ok_or(opt, e)`, `res.context(sel)` /
+    `with_context(|_| sel)` is `map_err(res, |$c0| Error::X{.., source: $c0})`."""
+    m = re.match(r'^errors::(\w+)Snafu::(fail|build)$', npath)
+    if m and len(args) == 1:
+        e = snafu_error(args[0])
+        if e is not None:
+            return ('call', 'Err', (e,), ()) if m.group(2) == 'fail' else e
+    if npath.endswith('snafu::OptionExt<T>>::context') and len(args) == 2:
+        e = snafu_error(args[1])
+        if e is not None:
+            return ('call', 'std::option::Option::ok_or', (args[0], e), ())
+    if npath == 'std::option::Option::ok_or_else' and len(args) == 2 and args[1] is not None and args[1][0] == 'closure' and not args[1][2]:
+        return ('call', 'std::option::Option::ok_or', (args[0], args[1][3]), ())
+    if npath.endswith('snafu::ResultExt<T, E>>::context') and len(args) == 2:
+        e = snafu_error(args[1])
+        if e is not None:
+            body = with_source(e, ('var', '$c0', -1)) if has_source(e[1]) else e
+            return ('call', 'std::result::Result::map_err', (args[0], ('closure', 'snafu', (('$c0', -1),), body)), ())
+    if npath.endswith('snafu::ResultExt<T, E>>::with_context') and len(args) == 2 and args[1] is not None and args[1][0] == 'closure':
+        e = snafu_error(args[1][3])
+        if e is not None:
+            body = with_source(e, ('var', '$c0', -1)) if has_source(e[1]) else e
+            return ('call', 'std::result::Result::map_err', (args[0], ('closure', 'snafu', (('$c0', -1),), body)), ())
+    return None
+
+
+def error_building_only(events, returned):
+    """the events only build the error value that is handed on (constructors, selectors, helpers read through)"""
+    shown = set(show(t) for t in subterms(returned)) if returned is not None else set()
+    for x in events:
+        if x.kind in ('ret', 'ctor', 'struct'):
+            continue
+        if x.kind == 'call' and (x.callee == 'Err' or x.callee.startswith('errors::') or show(x.term) in shown or (isinstance(x.extra, dict) and x.extra.get('inlined'))):
+            continue
+        return False
+    return True
 
 
 def cond_value(c, a, b):
